@@ -9,6 +9,7 @@ import Heathcliff.Proofs.GenGalois3
 import Heathcliff.Proofs.GenWord6
 import Heathcliff.Proofs.GenGalois4
 import Heathcliff.Proofs.GenGaloisPlan
+import Heathcliff.Proofs.GenGalois5
 
 /- Property theorems only (statements verbatim; proofs are the helper lemmas of Heathcliff/Proofs). -/
 namespace HC.C04
@@ -454,6 +455,25 @@ theorem gen_switch_key_indices_eq (dsz ksz : Nat) (hd : dsz + 1 < 2^64) (hk : 1 
   HC.gal_switch_indices_eq dsz ksz hd hk
 /-- non-vacuity: a ciphertext two levels below a 4-prime key level (dsz = 1, ksz = 4): indices [0, 3] -/
 example : GenGal.switch_key_indices 1 4 = .ok [0, 3] := by decide
+
+/-! `GaloisTool::apply_ntt`, the USE of the table (fragment after `let table = &(*reader)[index];`: length assertion + `result[i] = operand[table[i]]`; Proofs/GenGalois5.lean):
+    with the model's table it is `galoisApplyNtt` whatever the result buffer held before; composed with the GENERATED `generate_table_ntt` it is source → model.
+    `g % 2 = 1`: the table entries are < N only for odd g (`galoisTable_spec`); `2^k ≤ operand.len()`: the reads `operand[t]` are bounds-checked. -/
+theorem gen_apply_ntt_permute_eq (k g : Nat) (hg : g % 2 = 1) (a res : List Nat) (ha : 2^k ≤ a.length) (hres : res.length = 2^k) :
+    GenGal.galois_apply_ntt_permute a (galoisTableNtt k g).toList res (2^k) = .ok (galoisApplyNtt k a.toArray g).toList :=
+  HC.gp_apply_ntt_permute_eq k g hg a res ha hres
+/-- for ANY table of length n with entries in range: the gather `table.map (operand[·])` -/
+theorem gen_apply_ntt_permute_map (a0 tab res : List Nat) (n : Nat) (htab : tab.length = n) (hres : res.length = n)
+    (hrange : ∀ j, j < n → tab.getD j 0 < a0.length) :
+    GenGal.galois_apply_ntt_permute a0 tab res n = .ok (tab.map (fun t => a0.getD t 0)) := HC.gp_permute_eq_map a0 tab res n htab hres hrange
+theorem gen_apply_ntt_permute_refuses (a tab res : List Nat) (n : Nat) (h : res.length ≠ n) :
+    GenGal.galois_apply_ntt_permute a tab res n = .error .refused := HC.gp_apply_ntt_permute_refuses a tab res n h
+theorem gen_apply_ntt_eq (k g : Nat) (hk : k ≤ 31) (hg : g % 2 = 1) (hg2 : g < 2^(k+1)) (a res : List Nat)
+    (ha : 2^k ≤ a.length) (hres : res.length = 2^k) :
+    (GenG.generate_table_ntt g (2^k) k >>= fun tab => GenGal.galois_apply_ntt_permute a tab res (2^k)) =
+      .ok (galoisApplyNtt k a.toArray g).toList := HC.gp_apply_ntt_gen k g hk hg hg2 a res ha hres
+/-- non-vacuity: N = 4, g = 3 (table [2,3,0,1]), dirty result buffer -/
+example : GenGal.galois_apply_ntt_permute [10, 20, 30, 40] (galoisTableNtt 2 3).toList [9, 9, 9, 9] 4 = .ok [30, 40, 10, 20] := by decide
 
 
 end HC.C04
